@@ -175,6 +175,80 @@ def layout_path_scenario(chk):
     return len(cases)
 
 
+def registry_path_scenario(chk):
+    """Line-level preemption over EVERY function of prettyprinter.py (not only the dispatch-path functions the
+    step-wise scheduler traces): thread A is paused before its k-th line while thread B runs a whole print, for
+    A / B drawn from {warm print of a directly registered type, warm print of an unregistered type, very first
+    print of a lazily registered type, of a subclass of it, of ANOTHER lazily registered type}. A cache or table
+    added anywhere on the print path that a registration invalidates shows up here. Judged by ConcurrentCalls.tla."""
+    q = chk.tier == 'quick'
+    text_id = {'P1': 1, 'P2': 2, 'REPR': 3, 'P3': 4}
+    expected = {'K': 'P1', 'KS': 'P1', 'R': 'P2', 'U': 'REPR', 'K2': 'P3'}
+    pairs = [('R', 'K'), ('U', 'K'), ('K', 'R'), ('K', 'U'), ('K', 'K2'), ('KS', 'K2'), ('R', 'KS'), ('U', 'K2'),
+             ('K', 'K'), ('KS', 'K'), ('K', 'KS')]
+
+    def fresh():
+        sc = Scenario()
+        K2 = type('K2', (), {'__module__': sc.key.rsplit('.', 1)[0], '__repr__': lambda self: 'REPR'})
+        sc.cls['K2'] = K2
+        sc.key2 = sc.key.rsplit('.', 1)[0] + '.K2'
+        P.register_pretty(sc.key2)(lambda v, ctx: 'P3')
+        with warnings.catch_warnings():
+            warnings.simplefilter('ignore')
+            P.pformat(sc.cls['R']())     # warm: these two have been printed before
+            P.pformat(sc.cls['U']())
+        return sc
+
+    def drop(sc):
+        PP._DEFERRED_DISPATCH_BY_NAME.pop(sc.key2, None)
+        sc.cleanup()
+
+    def job(sc, c):
+        def fn():
+            with warnings.catch_warnings():
+                warnings.simplefilter('ignore')
+                return P.pformat(sc.cls[c]())
+        return fn
+
+    def got(r):
+        return text_id.get(r[1], 0) if r[0] == 'ok' else -1
+    cases = []
+    meta = {}
+    for a, b in pairs:
+        sc = fresh()
+        try:
+            _, _, nsteps = sched.run_with_preemption(job(sc, a), job(sc, b), None, [PP.__file__])
+        finally:
+            drop(sc)
+        stride = max(1, nsteps // (120 if q else 2000))
+        for k in range(1, nsteps + 1, stride):
+            sc = fresh()
+            try:
+                ra, rb, _ = sched.run_with_preemption(job(sc, a), job(sc, b), k, [PP.__file__])
+            finally:
+                drop(sc)
+            cid = len(cases) + 1
+            cases.append({'id': cid, 'calls': [{'t': 1, 'seq': text_id[expected[a]], 'got': got(ra)},
+                                               {'t': 2, 'seq': text_id[expected[b]], 'got': got(rb)}]})
+            meta[cid] = {'threads': ['print of %s' % a, 'print of %s' % b], 'traced': 'every function of prettyprinter.py',
+                         'kinds': 'K, K2: lazily registered, first print; KS: subclass of K; R: directly registered, '
+                                  'printed before; U: unregistered, printed before',
+                         'thread_0_preempted_before_its_traced_line': k, 'results': [ra, rb]}
+            chk.nontrivial(('registry-lines', a, b, k))
+    v, st = common.tlc_batch('ConcurrentCalls', CC_CFG, cases, os.path.join(chk.workdir, 'ccreg'), tags=('SAFE',),
+                             min_per_shard=100)
+    chk.add_model(st)
+    nv = 0
+    for c in cases:
+        if c['id'] not in v['SAFE']:
+            nv += 1
+            chk.violation('C20.sequential', 'two concurrent prints switched at a line of prettyprinter.py: a call did not '
+                          'return its sequential text / raised: %r' % (meta[c['id']],), meta[c['id']])
+    chk.stage('registry-path schedules', executions=len(cases), violations=nv)
+    chk.cov['traces_validated_against_impl'] += len(cases)
+    return len(cases)
+
+
 def check_c20(chk, args):
     q = chk.tier == 'quick'
     locks = module_locks()
@@ -253,6 +327,7 @@ def check_c20(chk, args):
                     [(e['t'], e['ev'], e['res']) for e in c['events']]))
         chk.stage('tlc.validate', threads=n, traces=len(cases), states=st['distinct'])
     nsched += layout_path_scenario(chk)
+    nsched += registry_path_scenario(chk)
     chk.cov['evaluations'] = nsched
     chk.cov['traces_validated_against_impl'] += nsched
     chk.cov['rule'] = ('executions of 2-3 threads printing lazily registered / subclass / directly registered / '
